@@ -1,0 +1,12 @@
+//go:build verif
+
+// Contracts for package parser, read by /verif/engine (comment-only).
+package parser
+
+// a syntax error is reported at the current (unexpected) token; the first error wins (C13)
+//@ func parser.parser.error
+//@   property C13
+//@   mode panics
+//@   requires p != nil
+//@   ensures[first-wins] old(p.err) != nil ==> p.err == old(p.err)
+//@   ensures[at-current-token] old(p.err) == nil ==> p.err != nil && p.err.Location.Line == old(p.current.Location.Line) && p.err.Location.Column == old(p.current.Location.Column)
